@@ -29,7 +29,7 @@ def run(ctx, factor):
                 "targets with <symbol> annotation), printed by the grammar; the decoded implementation stream must carry "
                 "the normal forms of the Lean specification (cross-checked with an independent Python table), in number "
                 "and order; model stream compared as well")
-    n = ctx.budget(1000, 40000) * factor
+    n = ctx.budget(2000, 40000) * factor
     for _ in range(n):
         line, _ = gen_lines.inst_line(g, g.int(0, 0xfffff))
         if line["mnem"] == "(bad)":
